@@ -122,6 +122,16 @@ def run_c10_source(ctx: Ctx, M: AnnotateModel):
         ctx.ob("C10-R5", "annotate.SpanUpdater.get_diff_steps/minimal-char-diff", okc,
                "the diff must be the minimal character diff of (a, b): no time limit, no line-mode pre-pass, no clean-up "
                f"(keywords {kw})", node=calls[0] if calls else gd, mod=m)
+    # R-C10-9: the offset table is built from a diff of the very strings the offsets refer to
+    init = repo.func("annotate.SpanUpdater.__init__")
+    if init is not None:
+        ps = [a.arg for a in init.args.args]
+        calls = [n for n in walk_local(init) if isinstance(n, ast.Call) and isinstance(n.func, ast.Name) and "diff" in n.func.id]
+        rebound = [x for x in stmts_local(init.body) if isinstance(x, (ast.Assign, ast.AugAssign)) and ({ps[1], ps[2]} & assigned_names(x))]
+        okd = len(calls) == 1 and [norm(a) for a in calls[0].args] == [ps[1], ps[2]] and not rebound
+        ctx.ob("C10-R9", "annotate.SpanUpdater.__init__/diffs-its-own-arguments", okd,
+               f"offsets passed to update() index `{ps[1]}`; the ranges must come from a diff of exactly (`{ps[1]}`, `{ps[2]}`), not of transformed copies "
+               f"(rebound: {[norm(x)[:50] for x in rebound]})", node=rebound[0] if rebound else (calls[0] if calls else init), mod=m)
     # R-C10-6: update is a pure function of (offset, bisect side)
     up = repo.func("annotate.SpanUpdater.update")
     ctx.ob("C10-R6", "annotate.SpanUpdater.update/located", up is not None, "offset translation located", node=f, mod=m, nontrivial=False)
@@ -153,6 +163,16 @@ def run_c10_source(ctx: Ctx, M: AnnotateModel):
         ctx.ob("C10-R8", "annotate.SpanUpdater.update/index-not-negative", okidx,
                "`bisect(offsets, offset) - 1` is -1 when nothing lies to the left (offset 0 with bisect_left): unclamped, the *last* range's updater is used and "
                "the translation is neither monotone nor at the right place", node=subs[0] if subs else up, mod=m)
+        # every offset is translated through the range table (no special-cased shortcut)
+        rets = [r for r in walk_local(up) if isinstance(r, ast.Return)]
+        upd = None
+        for x in stmts_local(up.body):
+            if isinstance(x, ast.Assign) and isinstance(x.value, ast.Subscript) and norm(x.value.value) == f"{ps[0]}.updaters":
+                upd = norm(x.targets[0])
+        okret = len(rets) == 1 and rets[0] in up.body and (norm(rets[0].value) == f"{upd}({ps[1]})" or norm(rets[0].value).startswith(f"{ps[0]}.updaters["))
+        ctx.ob("C10-R6", "annotate.SpanUpdater.update/through-the-range-table", okret,
+               f"the only result is the range's updater applied to the offset (returns: {[norm(r.value)[:40] if r.value is not None else None for r in rets]}): a "
+               "shortcut for particular offsets bypasses the diff and is where off-by-one errors at the text boundaries live", node=rets[0] if rets else up, mod=m)
         uses = {x.id for x in ast.walk(up) if isinstance(x, ast.Name)}
         ctx.ob("C10-R6", "annotate.SpanUpdater.update/uses-side", all(p_ in uses for p_ in ps[1:]),
                "both the offset and the bisect side are used", node=up, mod=m, nontrivial=False)
